@@ -16,7 +16,7 @@ C13 — the combination formulas behind `FunctionalAssignment.get_func_moment`.
 * `cfD_iteratedDeriv`     : for a finite law the a-th derivative of φ(t) = Σ p_j e^{i t x_j} is Σ p_j (i x_j)^a e^{i t x_j}
 * `trig_moment_formula`   : the coded formula (table, divisor, real part) is Σ p_j x_j^a sin^b x_j cos^c x_j
 * `exp_moment_formula`    : Σ p_j x_j^a e^{c x_j} = M^(a)(c)
-* `plan_coded_partial`, `plan_coded_counterexample` : the guard of `get_func_moment` as coded
+* `route_coded_eq_intended`, `mix_rejected`, `plan_coded_sound` : the guard of `get_func_moment` (full statement since /repo e78913c)
 * `mgfExists{Exponential,Gamma,Laplace}_correct` : the model of `mgf_exists_at` decides integrability of e^{tx} f(x)
 -/
 
@@ -365,29 +365,44 @@ lemma powerOf_eq_zero (powers : List (String × ℕ)) (k : String)
 section guard
 variable {ι : Type*} (s : Finset ι) (p x : ι → ℝ)
 
-/-
-Full statement (FALSE on the current tree, see `plan_coded_counterexample`):
-  ∀ powers v, planValue s p x (planCoded powers) = some v → v = trueMoment s p x powers
--/
+/-- the guard as coded (since /repo e78913c) is the documented guard -/
+theorem route_coded_eq_intended (keys : List String) : routeCoded keys = routeIntended keys := by
+  unfold routeCoded routeIntended
+  rfl
+
+/-- **`mix_rejected`**: powers that contain "Sin" or "Cos" together with "Exp" are refused
+    ("Exponential and trigonometric moments cannot be mixed"), whatever else they contain. -/
+theorem mix_rejected (powers : List (String × ℕ))
+    (htrig : (powers.map (·.1)).contains "Sin" = true ∨ (powers.map (·.1)).contains "Cos" = true)
+    (hexp : (powers.map (·.1)).contains "Exp" = true) :
+    planCoded powers = Plan.error "mixed" ∧ planValue s p x (planCoded powers) = none := by
+  have hr : routeCoded (powers.map (·.1)) = Route.errMixed := by
+    unfold routeCoded
+    rcases htrig with h | h <;>
+      simp only [h, hexp, Bool.true_or, Bool.or_true, Bool.and_self, if_true]
+  have hp : planCoded powers = Plan.error "mixed" := by
+    unfold planCoded
+    rw [hr]
+  exact ⟨hp, by rw [hp]; rfl⟩
+
+example : planCoded [("Sin", 1), ("Exp", 1)] = Plan.error "mixed" :=
+  (mix_rejected ({()} : Finset Unit) (fun _ => 1) (fun _ => 1) [("Sin", 1), ("Exp", 1)]
+    (Or.inl (by decide)) (by decide)).1
 
 set_option linter.unusedSimpArgs false in
-/-- **Partial**: whenever the coded guard routes like the documented one (i.e. the typo "Expt" is
-    not exercised: no Sin/Cos together with "Exp", no key "Expt" next to Sin/Cos), every value
-    `get_func_moment` returns is the true mixed moment. -/
-theorem plan_coded_partial (powers : List (String × ℕ))
-    (h : routeCoded (powers.map (·.1)) = routeIntended (powers.map (·.1)))
+/-- **`get_func_moment` is sound** (full statement): every value it returns for a finite law is the
+    true mixed moment `Σ p_j x_j^Id sin^Sin(x_j) cos^Cos(x_j) e^{Exp·x_j}`; the remaining calls raise. -/
+theorem plan_coded_sound (powers : List (String × ℕ))
     (v : ℝ) (hv : planValue s p x (planCoded powers) = some v) :
     v = trueMoment s p x powers := by
   unfold planCoded at hv
-  unfold routeCoded routeIntended at h
   unfold routeCoded at hv
   rcases hS : (powers.map (·.1)).contains "Sin" with _ | _ <;>
   rcases hC : (powers.map (·.1)).contains "Cos" with _ | _ <;>
   rcases hE : (powers.map (·.1)).contains "Exp" with _ | _ <;>
-  rcases hT : (powers.map (·.1)).contains "Expt" with _ | _ <;>
-  simp only [hS, hC, hE, hT, Bool.or_self, Bool.or_true, Bool.or_false, Bool.true_or, Bool.false_or,
+  simp only [hS, hC, hE, Bool.or_self, Bool.or_true, Bool.or_false, Bool.true_or, Bool.false_or,
     Bool.and_self, Bool.and_true, Bool.and_false, Bool.true_and, Bool.false_and, if_true, if_false,
-    Bool.false_eq_true, reduceCtorEq, planValue, Option.some.injEq] at h hv <;>
+    Bool.false_eq_true, reduceCtorEq, planValue, Option.some.injEq] at hv <;>
   first
   | exact absurd hv (by simp)
   | (-- exp route: Sin and Cos absent
@@ -405,25 +420,19 @@ theorem plan_coded_partial (powers : List (String × ℕ))
      rw [← trig_moment_formula]
      apply Finset.sum_congr rfl; intro j _; simp)
 
-/-- non-vacuity of `plan_coded_partial`: the hypotheses are satisfiable with a value returned -/
-example : ∃ v, routeCoded ([("Sin", 2), ("Id", 1)].map (·.1)) = routeIntended ([("Sin", 2), ("Id", 1)].map (·.1)) ∧
-    planValue ({()} : Finset Unit) (fun _ => 1) (fun _ => 1) (planCoded [("Sin", 2), ("Id", 1)]) = some v :=
-  ⟨_, by decide, rfl⟩
+/-- non-vacuity of `plan_coded_sound`: a value is returned on the trig and on the exp route -/
+example : (∃ v, planValue ({()} : Finset Unit) (fun _ => 1) (fun _ => 1) (planCoded [("Sin", 2), ("Id", 1)]) = some v) ∧
+    (∃ v, planValue ({()} : Finset Unit) (fun _ => 1) (fun _ => 1) (planCoded [("Exp", 2), ("Id", 1)]) = some v) :=
+  ⟨⟨_, rfl⟩, ⟨_, rfl⟩⟩
 
-/-- **Counterexample** to the full statement (finding F5): for the powers `{"Sin":1,"Exp":1}` the
-    documented guard rejects the call, the coded guard (key "Expt") hands it to `get_trig_moment`,
-    which never reads the "Exp" power; for the point law at 1 the returned value is `sin 1`, the
-    true moment is `sin 1 · e`. -/
-theorem plan_coded_counterexample :
-    routeIntended ([("Sin", 1), ("Exp", 1)].map (·.1)) = Route.errMixed ∧
-    routeCoded ([("Sin", 1), ("Exp", 1)].map (·.1)) = Route.trig ∧
-    ∃ v, planValue ({()} : Finset Unit) (fun _ => 1) (fun _ => 1) (planCoded [("Sin", 1), ("Exp", 1)]) = some v ∧
-      v = Real.sin 1 ∧
-      trueMoment ({()} : Finset Unit) (fun _ => 1) (fun _ => 1) [("Sin", 1), ("Exp", 1)] = Real.sin 1 * Real.exp 1 ∧
-      v ≠ trueMoment ({()} : Finset Unit) (fun _ => 1) (fun _ => 1) [("Sin", 1), ("Exp", 1)] := by
-  refine ⟨by decide, by decide, ?_⟩
-  have hplan : planCoded [("Sin", 1), ("Exp", 1)] = Plan.trig 0 1 0 (trigTable 1 0) (trigNorm 0 1 0) := by
-    rfl
+/-- the historical defect F5 (guard tested "Expt"): had the call been routed to `get_trig_moment`,
+    which never reads the "Exp" power, the point law at 1 would have received `sin 1` instead of
+    `sin 1 · e`; this is why the rejection matters. -/
+theorem trig_route_ignores_exp :
+    planValue ({()} : Finset Unit) (fun _ => 1) (fun _ => 1) (Plan.trig 0 1 0 (trigTable 1 0) (trigNorm 0 1 0))
+      = some (Real.sin 1) ∧
+    trueMoment ({()} : Finset Unit) (fun _ => 1) (fun _ => 1) [("Sin", 1), ("Exp", 1)] = Real.sin 1 * Real.exp 1 ∧
+    Real.sin 1 ≠ Real.sin 1 * Real.exp 1 := by
   have hval : (evalTable (trigTable 1 0) (fun ω => iteratedDeriv 0
         (cfD ({()} : Finset Unit) (fun _ => 1) (fun _ => 1) 0) (ω : ℝ)) /
         (I ^ (trigNorm 0 1 0).1 * 2 ^ (trigNorm 0 1 0).2)).re = Real.sin 1 := by
@@ -435,10 +444,9 @@ theorem plan_coded_counterexample :
     have h3 : powerOf [("Sin", 1), ("Exp", 1)] "Cos" = 0 := by decide
     have h4 : powerOf [("Sin", 1), ("Exp", 1)] "Exp" = 1 := by decide
     simp [trueMoment, h1, h2, h3, h4]
-  refine ⟨Real.sin 1, ?_, rfl, htrue, ?_⟩
-  · rw [hplan]; simp only [planValue]; rw [hval]
-  · rw [htrue]
-    have hs : 0 < Real.sin 1 :=
+  refine ⟨?_, htrue, ?_⟩
+  · simp only [planValue]; rw [hval]
+  · have hs : 0 < Real.sin 1 :=
       Real.sin_pos_of_pos_of_lt_pi one_pos (by linarith [Real.two_le_pi])
     have he : 1 < Real.exp 1 := by
       have := Real.add_one_lt_exp (x := 1) one_ne_zero
